@@ -103,10 +103,19 @@ static inline int verif_registered(sexp x) {   /* no loop: each comparison folds
 }
 static inline int verif_pointerp(sexp x) { if (verif_registered(x)) return 1; return (((sexp_uint_t)(x) & SEXP_POINTER_MASK) == SEXP_POINTER_TAG); }
 static inline int verif_fixnump(sexp x) { if (verif_registered(x)) return 0; return (((sexp_uint_t)(x) & SEXP_FIXNUM_MASK) == SEXP_FIXNUM_TAG); }
+/* comparisons of a value with an immediate constant: a registered heap object is never an immediate
+ * (CBMC does not fold `&object == (sexp)14`) */
+static inline int verif_is_imm(sexp x, sexp imm) { if (verif_registered(x)) return 0; return x == imm; }
 #undef sexp_pointerp
 #undef sexp_fixnump
+#undef sexp_truep
+#undef sexp_not
+#undef sexp_nullp
 #define sexp_pointerp(x) verif_pointerp((sexp)(x))
 #define sexp_fixnump(x)  verif_fixnump((sexp)(x))
+#define sexp_truep(x)    (!verif_is_imm((sexp)(x), SEXP_FALSE))
+#define sexp_not(x)      verif_is_imm((sexp)(x), SEXP_FALSE)
+#define sexp_nullp(x)    verif_is_imm((sexp)(x), SEXP_NULL)
 #endif
 
 /* Opt-in (-DVERIF_UF_SMUL): the signed 64x64->128 product of the VM's MUL fast path is an
